@@ -211,6 +211,22 @@ class LocalStorageBackend(StorageBackend):
 
         return full_path
 
+    def _resolve_file_path(self, path: str) -> str:
+        """Resolve `path` for an operation that CREATES a file.
+
+        A path that resolves to the table root itself ('', '.', 'x/..') passes
+        the containment check, but the file's parent directory is then the
+        root's PARENT: the temp file / lock directory would be created outside
+        the table. Such a path does not name a file inside the table.
+        """
+        full_path = self._resolve_path(path)
+        if full_path == self._real_base_path():
+            raise ValueError(
+                f"Security Error: path '{path}' resolves to the table root itself, "
+                f"not to a file inside it"
+            )
+        return full_path
+
     def read_file(self, path: str) -> bytes:
         full_path = self._resolve_path(path)
         with open(full_path, "rb") as f:
@@ -240,7 +256,7 @@ class LocalStorageBackend(StorageBackend):
         """
         logger.debug(f"Writing file: {path} ({len(content)} bytes)")
 
-        full_path = self._resolve_path(path)
+        full_path = self._resolve_file_path(path)
         dir_path = os.path.dirname(full_path)
         os.makedirs(dir_path, exist_ok=True)
 
@@ -379,7 +395,7 @@ class LocalStorageBackend(StorageBackend):
 
     def create_lock(self, path: str, timeout: float = 30.0) -> "LockProvider":
         from .lock_provider import LocalLockProvider
-        full_path = self._resolve_path(path)
+        full_path = self._resolve_file_path(path)
         return LocalLockProvider(full_path, timeout)
 
 
